@@ -356,3 +356,420 @@ Proof.
 Qed.
 
 End InvVol.
+
+(* ------------------------------------------------------------------ *)
+(* C04: what a faithful tree is                                        *)
+(* ------------------------------------------------------------------ *)
+
+Section Spec.
+Variable dec : Z -> bytes -> option bytes.
+Variable u2s : bytes -> bytes.
+
+Definition all_ok (P : node -> Prop) :=
+  fix all (l : list node) : Prop :=
+    match l with [] => True | k :: r => P k /\ all r end.
+
+(* sections at consecutive 4-aligned offsets of [b], each one the window [off, off+ext) of [b] *)
+Fixpoint secs_tile (b : bytes) (off : Z) (kids : list node) : Prop :=
+  match kids with
+  | [] => True
+  | NSec h sb _ :: r =>
+    0 <= off /\ off mod 4 = 0 /\ 0 < s_ext h /\ off + s_ext h <= zlen b /\
+    sb = sub off (s_ext h) b /\ secs_tile b (align4 (off + s_ext h)) r
+  | _ :: _ => False
+  end.
+
+(* files at consecutive 8-aligned offsets of the volume buffer [b] *)
+Fixpoint files_tile (b : bytes) (off : Z) (kids : list node) : Prop :=
+  match kids with
+  | [] => True
+  | NFile h fb _ :: r =>
+    0 <= align8 off /\ 0 < f_ext h /\ align8 off + f_ext h <= zlen b /\
+    fb = sub (align8 off) (f_ext h) b /\ files_tile b (align8 off + f_ext h) r
+  | _ :: _ => False
+  end.
+
+(* header fields are the little-endian decode of the node's own bytes (as far as the node
+   reaches: a node may be shorter than its header, see the note in Properties/C04.v) *)
+Definition sec_fields (h : sechdr) (sb : bytes) : Prop :=
+  zlen sb = s_ext h /\ (s_hlen h = 4 \/ s_hlen h = 8) /\
+  (4 <= s_ext h -> s_size3 h = rd 0 3 sb /\ s_type h = rd 3 1 sb) /\
+  (s_hlen h = 8 -> s_size3 h = 16777215 /\ (8 <= s_ext h -> s_ext h = rd 4 4 sb)) /\
+  (s_hlen h = 4 -> s_ext h <= s_size3 h /\ (known_section (s_type h) = true -> s_ext h = s_size3 h)) /\
+  match s_gd h with
+  | Some g => s_type h = 2 /\ s_hlen h + 20 <= s_ext h /\
+              gd_guid g = sub (s_hlen h) 16 sb /\ gd_dataoff g = rd (s_hlen h + 16) 2 sb /\
+              gd_attrs g = rd (s_hlen h + 18) 2 sb /\ 0 <= gd_dataoff g <= s_ext h
+  | None => s_type h <> 2
+  end /\
+  (s_type h = 21 -> s_hlen h < s_ext h /\ s_name h = u2s (zskipn (s_hlen h) sb)) /\
+  (s_type h = 20 -> s_hlen h + 2 < s_ext h /\ s_build h = rd (s_hlen h) 2 sb /\
+                    s_version h = u2s (zskipn (s_hlen h + 2) sb)).
+
+Definition sec_kids_ok (h : sechdr) (sb : bytes) (kids : list node) : Prop :=
+  if s_type h =? 2 then
+    exists g encap, s_gd h = Some g /\ secs_tile encap 0 kids /\
+      ((encap = [] /\ gd_kind g = 0) \/
+       (gd_kind g <> 0 /\
+        dec (gd_kind g) (sub (gd_dataoff g) (s_ext h - gd_dataoff g) sb) = Some encap))
+  else if s_type h =? 23 then
+    exists vh vk, kids = [NVol vh (sub (s_hlen h) (v_length vh) sb) vk] /\
+                  s_hlen h + v_length vh <= s_ext h
+  else kids = [].
+
+Definition file_fields (h : filehdr) (fb : bytes) : Prop :=
+  zlen fb = f_ext h /\ (f_dataoff h = 24 \/ f_dataoff h = 32) /\
+  (24 <= f_ext h -> file_hdr_from h fb) /\
+  (f_dataoff h = 24 -> f_ext h = f_size3 h) /\
+  (f_dataoff h = 32 -> f_size3 h = 16777215 /\ (32 <= f_ext h -> f_ext h = rd 24 8 fb)).
+
+Definition vol_fields (h : volhdr) (vb : bytes) : Prop :=
+  zlen vb = v_length h /\ 64 <= v_length h /\ vol_hdr_from h vb.
+
+Fixpoint node_ok (n : node) : Prop :=
+  match n with
+  | NPad _ _ => True
+  | NSec h sb kids => sec_fields h sb /\ sec_kids_ok h sb kids /\ all_ok node_ok kids
+  | NFile h fb kids => file_fields h fb /\ secs_tile fb (f_dataoff h) kids /\ all_ok node_ok kids
+  | NVol h vb kids => vol_fields h vb /\ files_tile vb (v_dataoff h) kids /\ all_ok node_ok kids
+  end.
+
+(* what each parser promises about its result, relative to the buffer it was given *)
+Definition post_sec (buf : bytes) (n : node) : Prop :=
+  exists h kids, n = NSec h (sub 0 (s_ext h) buf) kids /\ 0 <= s_ext h <= zlen buf /\ node_ok n.
+
+Definition post_file (buf : bytes) (fo : option node) : Prop :=
+  match fo with
+  | None => True
+  | Some n => exists h kids, n = NFile h (sub 0 (f_ext h) buf) kids /\
+                0 <= f_ext h <= zlen buf /\ node_ok n
+  end.
+
+Definition post_fv (data : bytes) (n : node) : Prop :=
+  exists h kids, n = NVol h (sub 0 (v_length h) data) kids /\
+    64 <= v_length h <= zlen data /\ node_ok n.
+
+Definition dec_ok : Prop :=
+  forall k p e, bytes_ok p = true -> dec k p = Some e -> bytes_ok e = true.
+
+Section LoopS.
+Variable rs : Z -> bytes -> Z -> outcome (node * Z).
+Hypothesis rs_post : forall pol b i n p, bytes_ok b = true -> rs pol b i = Ok (n, p) -> post_sec b n.
+
+Lemma sections_loop_tile n : forall b pol off i kids p,
+  bytes_ok b = true -> 0 <= off -> off mod 4 = 0 ->
+  sections_loop rs n b pol off i = Ok (kids, p) ->
+  secs_tile b off kids /\ all_ok node_ok kids.
+Proof.
+  induction n as [|n IH]; intros b pol off i kids p OK O0 OM; cbn [sections_loop]; [discriminate|].
+  destruct (off <? zlen b) eqn:Lt.
+  - intros H. apply bind_ok in H as ([s pol'] & Hs & H).
+    destruct (rs_post _ _ _ _ _ (bytes_ok_zskipn off b OK) Hs) as (h & ks & -> & Hext & Hok).
+    cbn [sec_ext] in H. destruct (s_ext h =? 0) eqn:E0; [discriminate|].
+    apply bind_ok in H as ([r pol''] & Hr & H). injection H as <- <-.
+    rewrite zlen_zskipn_gen in Hext by lia.
+    pose proof (align4_bounds (off + s_ext h)).
+    apply IH in Hr as [T A]; [| auto | lia | apply align4_mod].
+    split.
+    + cbn [secs_tile]. rewrite sub_0_zskipn. repeat split; auto; lia.
+    + cbn [all_ok]. split; auto.
+  - intros [= <- <-]. split; exact I.
+Qed.
+
+End LoopS.
+
+Section LoopF.
+Variable rf : Z -> bytes -> outcome (option node * Z).
+Hypothesis rf_post : forall pol b fo p, bytes_ok b = true -> rf pol b = Ok (fo, p) -> post_file b fo.
+
+Lemma files_loop_tile n : forall data length pol off kids p fs,
+  bytes_ok data = true -> 0 <= off -> length <= zlen data ->
+  files_loop rf n data length pol off = Ok (kids, p, fs) ->
+  files_tile (sub 0 length data) off kids /\ all_ok node_ok kids.
+Proof.
+  induction n as [|n IH]; intros data length pol off kids p fs OK O0 LL; cbn [files_loop]; [discriminate|].
+  destruct (off + 24 <=? length) eqn:Lt.
+  - pose proof (align8_bounds off) as AB.
+    destruct (length <? align8 off + 24) eqn:L2.
+    { intros [= <- <- <-]. split; exact I. }
+    intros H. apply bind_ok in H as ([fo pol'] & Hf & H).
+    assert (OKs : bytes_ok (sub (align8 off) (length - align8 off) data) = true) by (apply bytes_ok_sub; auto).
+    pose proof (rf_post _ _ _ _ OKs Hf) as PF.
+    destruct fo as [f|]; [|injection H as <- <- <-; split; exact I].
+    destruct PF as (h & ks & -> & Hext & Hok).
+    cbn [file_ext] in H. destruct (f_ext h =? 0) eqn:E0; [discriminate|].
+    apply bind_ok in H as ([[r pol''] fs'] & Hr & H). injection H as <- <- <-.
+    rewrite zlen_sub_gen in Hext by lia.
+    apply IH in Hr as [T A]; [| auto | lia | lia].
+    split.
+    + cbn [files_tile]. rewrite zlen_sub0 by lia.
+      rewrite !sub_sub by lia. rewrite Z.add_0_r, Z.add_0_l.
+      repeat split; auto; lia.
+    + cbn [all_ok]. split; auto.
+  - intros [= <- <- <-]. split; exact I.
+Qed.
+
+End LoopF.
+
+Section Bodies.
+Variable nvar : bytes -> option bytes.
+Variable rs : Z -> bytes -> Z -> outcome (node * Z).
+Variable rf : Z -> bytes -> outcome (option node * Z).
+Variable rfv : Z -> bytes -> Z -> bool -> outcome (node * Z).
+Hypothesis Hdec : dec_ok.
+Hypothesis rs_post : forall pol b i n p, bytes_ok b = true -> rs pol b i = Ok (n, p) -> post_sec b n.
+Hypothesis rf_post : forall pol b fo p, bytes_ok b = true -> rf pol b = Ok (fo, p) -> post_file b fo.
+Hypothesis rfv_post : forall pol b o r n p, bytes_ok b = true -> rfv pol b o r = Ok (n, p) -> post_fv b n.
+
+Lemma section_body_post pol buf i n p : bytes_ok buf = true ->
+  section_body dec u2s rs rfv pol buf i = Ok (n, p) -> post_sec buf n.
+Proof.
+  intros OK H. apply section_body_inv in H as (h & kids & -> & L4 & LE & F1 & F2 & F3 & HL & R).
+  pose proof (zlen_nonneg buf) as ZB.
+  assert (E0 : 0 <= s_ext h).
+  { pose proof (rd_nonneg 0 3 buf OK). pose proof (rd_nonneg 4 4 buf OK). lia. }
+  set (sb := sub 0 (s_ext h) buf) in *.
+  assert (ZS : zlen sb = s_ext h) by (unfold sb; rewrite zlen_sub0; lia).
+  assert (OKs : bytes_ok sb = true) by (apply bytes_ok_sub; auto).
+  exists h, kids. split; [reflexivity|]. split; [lia|].
+  cbn [node_ok]. unfold sec_rest in R. cbv zeta in R.
+  assert (SF : sec_fields h sb /\ sec_kids_ok h sb kids /\ all_ok node_ok kids);
+    [|tauto].
+  assert (Base : zlen sb = s_ext h /\ (s_hlen h = 4 \/ s_hlen h = 8) /\
+    (4 <= s_ext h -> s_size3 h = rd 0 3 sb /\ s_type h = rd 3 1 sb) /\
+    (s_hlen h = 8 -> s_size3 h = 16777215 /\ (8 <= s_ext h -> s_ext h = rd 4 4 sb)) /\
+    (s_hlen h = 4 -> s_ext h <= s_size3 h /\ (known_section (s_type h) = true -> s_ext h = s_size3 h))).
+  { split; [exact ZS|]. split; [lia|]. split; [|split].
+    - intros G. unfold sb. rewrite !rd_sub0 by lia. auto.
+    - intros G. split; [lia|]. intros G8. unfold sb. rewrite rd_sub0 by lia. lia.
+    - intros G. split; [lia|]. intros KS. destruct HL as [[_ [E|[KF _]]]|[? _]]; lia. }
+  unfold sec_fields, sec_kids_ok.
+  destruct (s_type h =? 2) eqn:T2.
+  - destruct R as (L20 & g & G & G1 & G2 & G3 & G4 & encap & Hloop & Src).
+    rewrite G.
+    assert (D0 : 0 <= gd_dataoff g) by (rewrite G2; apply rd_nonneg; auto).
+    assert (OKe : bytes_ok encap = true).
+    { destruct Src as [[-> _]|(_ & _ & D)]; [reflexivity|].
+      eapply Hdec; [|exact D]. apply bytes_ok_sub; auto. }
+    apply (sections_loop_tile rs rs_post) in Hloop as [T A]; auto; [|reflexivity].
+    split; [|split; [|exact A]].
+    + repeat split; try tauto; try lia.
+    + exists g, encap. split; [reflexivity|]. split; [exact T|].
+      destruct Src as [?|(K & _ & D)]; [left; auto|right]. split; auto. rewrite <- ZS. exact D.
+  - destruct R as (G & R). rewrite G.
+    assert (Fields : forall X Y : Prop, X -> Y -> (zlen sb = s_ext h /\ (s_hlen h = 4 \/ s_hlen h = 8) /\
+    (4 <= s_ext h -> s_size3 h = rd 0 3 sb /\ s_type h = rd 3 1 sb) /\
+    (s_hlen h = 8 -> s_size3 h = 16777215 /\ (8 <= s_ext h -> s_ext h = rd 4 4 sb)) /\
+    (s_hlen h = 4 -> s_ext h <= s_size3 h /\ (known_section (s_type h) = true -> s_ext h = s_size3 h)) /\
+    s_type h <> 2 /\ X /\ Y)).
+    { intros X Y HX HY. repeat split; try tauto; try lia. }
+    destruct (s_type h =? 23) eqn:T23.
+    + destruct R as (LH & v & -> & Hv).
+      apply rfv_post in Hv as (vh & vk & -> & VL & Vok); [|apply bytes_ok_zskipn; auto].
+      rewrite zlen_zskipn_gen in VL by lia.
+      rewrite sub_0_zskipn in *.
+      split; [|split].
+      * apply Fields; intros; lia.
+      * exists vh, vk. split; [reflexivity|]. lia.
+      * cbn [all_ok]. split; [exact Vok|exact I].
+    + destruct R as (-> & -> & N1 & N2).
+      split; [|split; [reflexivity|exact I]].
+      apply Fields.
+      * intros T. destruct (N1 T). split; [lia|auto].
+      * intros T. destruct (N2 T) as (? & ? & ?). split; [lia|auto].
+Qed.
+
+Lemma file_hdr_from_sub h ext buf : 24 <= ext ->
+  file_hdr_from h buf -> file_hdr_from h (sub 0 ext buf).
+Proof.
+  intros L (G1 & G2 & G3 & G4 & G5 & G6 & G7). unfold file_hdr_from.
+  rewrite !rd_sub0 by lia. rewrite sub_sub by lia. repeat split; auto.
+Qed.
+
+Lemma file_body_post pol buf fo p : bytes_ok buf = true ->
+  file_body nvar rs pol buf = Ok (fo, p) -> post_file buf fo.
+Proof.
+  intros OK H. apply file_body_inv in H. destruct fo as [n|]; [|exact I].
+  destruct H as (h & kids & -> & L24 & LE & HF & HL & R).
+  assert (E0 : 0 <= f_ext h).
+  { destruct HF as (_ & _ & _ & _ & _ & G6 & _).
+    pose proof (rd_nonneg 20 3 buf OK). pose proof (rd_nonneg 24 8 buf OK). lia. }
+  set (fb := sub 0 (f_ext h) buf) in *.
+  assert (ZS : zlen fb = f_ext h) by (unfold fb; rewrite zlen_sub0; lia).
+  assert (OKs : bytes_ok fb = true) by (apply bytes_ok_sub; auto).
+  exists h, kids. split; [reflexivity|]. split; [lia|].
+  cbn [node_ok].
+  assert (FF : file_fields h fb).
+  { unfold file_fields. split; [exact ZS|]. split; [lia|]. split; [|split].
+    - intros G. apply file_hdr_from_sub; auto.
+    - lia.
+    - intros G. split; [lia|]. intros G32. unfold fb. rewrite rd_sub0 by lia. lia. }
+  split; [exact FF|].
+  destruct (supported_file (f_type h)).
+  - apply (sections_loop_tile rs rs_post) in R; auto; [lia|].
+    destruct HL as [[-> _]|[-> _]]; reflexivity.
+  - destruct R as [-> _]. split; exact I.
+Qed.
+
+Lemma vol_hdr_from_sub h data : bytes_ok data = true -> 64 <= v_length h ->
+  vol_hdr_from h data -> vol_hdr_from h (sub 0 (v_length h) data).
+Proof.
+  intros OK L (G1 & G2 & G3 & G4 & G5 & G6 & G7 & G8 & G9 & G10 & G11 & G12 & G13).
+  unfold vol_hdr_from.
+  rewrite !rd_sub0 by lia. rewrite !sub_sub by lia. rewrite !Z.add_0_l.
+  assert (0 <= v_exthdroff h) by (rewrite G8; apply rd_nonneg; auto).
+  repeat (split; [assumption|]).
+  destruct (vol_has_ext h) eqn:HE; [|auto].
+  unfold vol_has_ext in HE.
+  rewrite rd_sub0 by lia. rewrite sub_sub by lia. rewrite Z.add_0_l. auto.
+Qed.
+
+Lemma fv_body_post pol data fvoff r n p : bytes_ok data = true ->
+  fv_body rf pol data fvoff r = Ok (n, p) -> post_fv data n.
+Proof.
+  intros OK H. apply fv_body_inv in H as (h & kids & -> & LL & HF & _ & _ & _ & pol1 & _ & R).
+  exists h, kids. split; [reflexivity|]. split; [lia|].
+  cbn [node_ok].
+  set (vb := sub 0 (v_length h) data) in *.
+  assert (ZS : zlen vb = v_length h) by (unfold vb; rewrite zlen_sub0; lia).
+  split; [split; [exact ZS|split; [lia|apply vol_hdr_from_sub; auto; lia]]|].
+  destruct (supported_fv (v_guid h)).
+  - apply (files_loop_tile rf rf_post) in R; auto; [|lia].
+    destruct HF as (_ & _ & _ & _ & _ & G6 & _ & G8 & _ & _ & _ & G12 & G13).
+    rewrite G13.
+    pose proof (rd_nonneg 48 2 data OK). pose proof (rd_nonneg 52 2 data OK).
+    assert (0 <= v_extsize h).
+    { rewrite G12. destruct (vol_has_ext h); [apply rd_nonneg; auto|lia]. }
+    match goal with |- 0 <= align8 ?x => pose proof (align8_bounds x) end.
+    destruct (vol_has_ext h); lia.
+  - destruct R as (-> & _). split; exact I.
+Qed.
+
+End Bodies.
+End Spec.
+
+(* ------------------------------------------------------------------ *)
+(* lifting to the depth-fuelled parsers                                *)
+(* ------------------------------------------------------------------ *)
+
+Section Lift.
+Variable dec : Z -> bytes -> option bytes.
+Variable u2s : bytes -> bytes.
+Variable nvar : bytes -> option bytes.
+
+Notation psec := (parse_section dec u2s nvar).
+Notation pfile := (parse_file dec u2s nvar).
+Notation pfv := (parse_fv dec u2s nvar).
+
+Lemma parse_section_S d pol b i :
+  psec (S d) pol b i = section_body dec u2s (psec d) (pfv d) pol b i.
+Proof. reflexivity. Qed.
+Lemma parse_file_S d pol b : pfile (S d) pol b = file_body nvar (psec d) pol b.
+Proof. reflexivity. Qed.
+Lemma parse_fv_S d pol b o r : pfv (S d) pol b o r = fv_body (pfile d) pol b o r.
+Proof. reflexivity. Qed.
+
+Lemma parse_fv_inv d pol data o r n p : pfv d pol data o r = Ok (n, p) ->
+  exists h kids, n = NVol h (sub 0 (v_length h) data) kids /\
+    64 <= v_length h <= zlen data /\ vol_hdr_from h data /\ v_fvoffset h = o /\ v_resizable h = r.
+Proof.
+  destruct d as [|d]; [discriminate|]. rewrite parse_fv_S. intros H.
+  apply fv_body_inv in H as (h & kids & -> & LL & HF & _ & O & R & _).
+  exists h, kids. auto.
+Qed.
+
+Theorem parse_post (Hdec : dec_ok dec) d :
+  (forall pol b i n p, bytes_ok b = true -> psec d pol b i = Ok (n, p) -> post_sec dec u2s b n) /\
+  (forall pol b fo p, bytes_ok b = true -> pfile d pol b = Ok (fo, p) -> post_file dec u2s b fo) /\
+  (forall pol b o r n p, bytes_ok b = true -> pfv d pol b o r = Ok (n, p) -> post_fv dec u2s b n).
+Proof.
+  induction d as [|d (IS & IF & IV)]; [split; [|split]; intros; discriminate|].
+  split; [|split].
+  - intros pol b i n p OK H. rewrite parse_section_S in H.
+    eapply section_body_post; eauto.
+  - intros pol b fo p OK H. rewrite parse_file_S in H.
+    eapply file_body_post; eauto.
+  - intros pol b o r n p OK H. rewrite parse_fv_S in H.
+    eapply fv_body_post; eauto.
+Qed.
+
+(* ---- the BIOS region ---- *)
+
+Lemma find_fvh_bound n : forall data off,
+  find_fvh n data off = -1 \/ find_fvh n data off + 44 < zlen data.
+Proof.
+  induction n as [|n IH]; intros data off; cbn [find_fvh]; [left; reflexivity|].
+  destruct (off + 4 <? zlen data) eqn:L; [|left; reflexivity].
+  destruct (bytes_eqb _ _); [right; lia|apply IH].
+Qed.
+
+Lemma find_fv_offset_bound data :
+  find_fv_offset data = -1 \/ find_fv_offset data + 44 < zlen data.
+Proof.
+  unfold find_fv_offset. destruct (zlen data <? 32); [left; reflexivity|apply find_fvh_bound].
+Qed.
+
+(* element offsets are the running sum of the preceding lengths *)
+Fixpoint elems_at (abs : Z) (l : list node) : Prop :=
+  match l with
+  | [] => True
+  | NPad o b :: r => o = abs /\ elems_at (abs + zlen b) r
+  | NVol h b _ :: r => v_fvoffset h = abs /\ v_resizable h = false /\ zlen b = v_length h /\
+                       elems_at (abs + zlen b) r
+  | _ :: _ => False
+  end.
+
+Lemma parse_bios_partition d n : forall pol buf abs elems p,
+  parse_bios dec u2s nvar d n pol buf abs = Ok (elems, p) ->
+  concat (map node_buf elems) = buf /\ elems_at abs elems.
+Proof.
+  induction n as [|n IH]; intros pol buf abs elems p; cbn [parse_bios]; [discriminate|].
+  destruct (find_fv_offset buf <? 0) eqn:L0.
+  - intros [= <- <-]. destruct (zlen buf =? 0) eqn:Z0.
+    + destruct buf; [split; [reflexivity|exact I]|rewrite zlen_cons in Z0; pose proof (zlen_nonneg buf); lia].
+    + cbn. rewrite app_nil_r. auto.
+  - set (offset := find_fv_offset buf) in *.
+    pose proof (find_fv_offset_bound buf) as FB. fold offset in FB.
+    pose proof (zlen_nonneg buf) as ZB.
+    intros H. apply bind_ok in H as ([v pol'] & Hv & H).
+    apply parse_fv_inv in Hv as (h & kids & -> & LL & _ & FO & RZ).
+    rewrite zlen_zskipn_gen in LL by lia.
+    destruct (v_length h =? 0) eqn:E0; [discriminate|].
+    apply bind_ok in H as ([r pol''] & Hr & H). injection H as <- <-.
+    apply IH in Hr as [C A].
+    assert (ZV : zlen (sub 0 (v_length h) (zskipn offset buf)) = v_length h).
+    { rewrite zlen_sub0; [lia|]. rewrite zlen_zskipn_gen; lia. }
+    assert (CV : concat (map node_buf (NVol h (sub 0 (v_length h) (zskipn offset buf)) kids :: r))
+                 = zskipn offset buf).
+    { cbn [map concat node_buf]. rewrite C. unfold sub. rewrite zskipn_0.
+      replace (offset + v_length h) with (v_length h + offset) by lia.
+      rewrite <- (zskipn_zskipn (v_length h) offset) by lia. apply zfirstn_zskipn. }
+    assert (AV : elems_at (abs + offset) (NVol h (sub 0 (v_length h) (zskipn offset buf)) kids :: r)).
+    { cbn [elems_at]. rewrite ZV. repeat split; auto. }
+    destruct (0 <? offset) eqn:P0.
+    + split.
+      * rewrite map_app, concat_app. rewrite CV. cbn. rewrite app_nil_r. apply zfirstn_zskipn.
+      * cbn [app elems_at]. split; [reflexivity|]. rewrite zlen_zfirstn by lia. exact AV.
+    + assert (offset = 0) by lia. cbn [app]. split.
+      * rewrite CV. replace offset with 0 by lia. reflexivity.
+      * replace (abs + offset) with abs in AV by lia. exact AV.
+Qed.
+
+Lemma parse_bios_nodes_ok (Hdec : dec_ok dec) d n : forall pol buf abs elems p,
+  bytes_ok buf = true ->
+  parse_bios dec u2s nvar d n pol buf abs = Ok (elems, p) ->
+  all_ok (node_ok dec u2s) elems.
+Proof.
+  induction n as [|n IH]; intros pol buf abs elems p OK; cbn [parse_bios]; [discriminate|].
+  destruct (find_fv_offset buf <? 0) eqn:L0.
+  - intros [= <- <-]. destruct (zlen buf =? 0); cbn; auto.
+  - intros H. apply bind_ok in H as ([v pol'] & Hv & H).
+    apply (parse_post Hdec) in Hv as (h & kids & -> & LL & NO); [|apply bytes_ok_zskipn; auto].
+    destruct (v_length h =? 0) eqn:E0; [discriminate|].
+    apply bind_ok in H as ([r pol''] & Hr & H). injection H as <- <-.
+    apply IH in Hr; [|apply bytes_ok_zskipn; auto].
+    destruct (0 <? find_fv_offset buf); cbn [app all_ok]; auto.
+    split; [exact I|]. auto.
+Qed.
+
+End Lift.
